@@ -17,6 +17,7 @@ pub fn conf() -> &'static Conf {
         let part = std::env::var("VF_PART").unwrap_or_else(|_| "wire".to_string());
         let def = vcore::prop::find(&prop).expect("VF_PROP names no property");
         vcore::cx::install_silent_hook();
+        vcore::cx::FUZZ_MODE.store(true, std::sync::atomic::Ordering::Relaxed);
         Conf { prop, part, def }
     })
 }
